@@ -114,9 +114,26 @@ def _into_vec(e, c, a):
     raise Unsupported('into_vec of %r' % (b,))
 
 
-@model(r'std::boxed::box_new::<.*>|alloc::boxed::box_new::<.*>|Box::<.*>::new_uninit|alloc::alloc::exchange_malloc')
+@model(r'std::boxed::box_new::<.*>|alloc::boxed::box_new::<.*>|alloc::alloc::exchange_malloc')
 def _box_new_arr(e, c, a):
     return Opaque('box', cell=Cell(a[0] if a else None), rt='Box')
+
+
+@model(r'Box::<\[.*; \d+\]>::new_uninit', 'Box<[T; N]>::new_uninit (lowering of vec![..])')
+def _box_new_uninit(e, c, a):
+    # Box<MaybeUninit<[T; N]>> as the MIR sees it: box.0 (Unique) .0 (NonNull) -> *MaybeUninit; MaybeUninit.1 (ManuallyDrop) .0 (MaybeDangling) .0 = the array
+    mu = Agg([UNIT, Agg([Agg([None], ty='MaybeDangling')], ty='ManuallyDrop')], ty='MaybeUninit')
+    ptr = Ref(Cell(mu))
+    return Agg([Agg([ptr], ty='Unique')], ty='BoxUninit')
+
+
+@model(r'std::boxed::box_assume_init_into_vec_unsafe::<.*>|alloc::boxed::box_assume_init_into_vec_unsafe::<.*>')
+def _box_into_vec(e, c, a):
+    mu = a[0].f[0].v.f[0].v.c.v
+    arr = mu.f[1].v.f[0].v.f[0].v
+    if not isinstance(arr, Seq):
+        raise Panic('UB: box_assume_init_into_vec_unsafe on an uninitialised box', 'ub')
+    return Seq([cl.v for cl in arr.e])
 
 
 @model(r'std::slice::<impl \[.*\]>::to_vec|core::slice::<impl \[.*\]>::to_vec|alloc::slice::<impl \[.*\]>::to_vec|<\[.*\] as ToOwned>::to_owned|<Vec<.*> as From<&\[.*\]>>::from|<Vec<.*> as From<&mut \[.*\]>>::from|<&\[.*\] as Into<Vec<.*>>>::into|<Vec<.*> as From<&\[.*; \d+\]>>::from|<Vec<.*> as From<\[.*; \d+\]>>::from', 'slice -> Vec')
